@@ -650,15 +650,17 @@ it has accepted `n` bytes so far (`fd i n`). -/
 abbrev Fd := Nat → Nat → FdResp
 
 /-- State of file descriptor 1: number of operations so far, bytes accepted
-(= what the consumer of standard output can see), and whether any operation
-was answered with `EPIPE` (a ghost flag for the C16 theorems). -/
+(= what the consumer of standard output can see), and two ghost flags for the
+C16 theorems: whether any operation was answered with `EPIPE`, and whether any
+was answered with another error. -/
 structure FdSt where
   ops : Nat
   accepted : Bytes
   epipe : Bool
+  oerr : Bool
   deriving DecidableEq, Repr
 
-def FdSt.init : FdSt := { ops := 0, accepted := [], epipe := false }
+def FdSt.init : FdSt := { ops := 0, accepted := [], epipe := false, oerr := false }
 
 def isEpipe : IoErr → Bool
   | .brokenPipe => true
@@ -669,12 +671,12 @@ def fdWrite (fd : Fd) (s : FdSt) (buf : Bytes) : Except IoErr Nat × FdSt :=
   match fd s.ops s.accepted.length with
   | .all => (.ok buf.length, { s with ops := s.ops + 1, accepted := s.accepted ++ buf })
   | .upTo n => (.ok (min n buf.length), { s with ops := s.ops + 1, accepted := s.accepted ++ buf.take n })
-  | .err e => (.error e, { s with ops := s.ops + 1, epipe := s.epipe || isEpipe e })
+  | .err e => (.error e, { s with ops := s.ops + 1, epipe := s.epipe || isEpipe e, oerr := s.oerr || !isEpipe e })
 
 /-- `flush` on standard output below xt's `BufWriter`. -/
 def fdFlush (fd : Fd) (s : FdSt) : Except IoErr Unit × FdSt :=
   match fd s.ops s.accepted.length with
-  | .err e => (.error e, { s with ops := s.ops + 1, epipe := s.epipe || isEpipe e })
+  | .err e => (.error e, { s with ops := s.ops + 1, epipe := s.epipe || isEpipe e, oerr := s.oerr || !isEpipe e })
   | _ => (.ok (), { s with ops := s.ops + 1 })
 
 def writeZeroBuffered : IoErr := .other "failed to write the buffered data".toList
